@@ -404,6 +404,18 @@ func exploreNode(c *vx.Ctx, props string, maxDev int, bfsDepth int, st *exploreS
 			jobs = append(jobs, nodeJob(props, fmt.Sprintf("%d:~SR:propose", pos), fmt.Sprintf("%d:+PROP", q)))
 		}
 	}
+	// Simultaneously ready inputs of the state machine (controlled main select): the next 2 or 3 scripted events all
+	// happen before its kernel looks at any input, and each select case is tried as the one taken first.
+	nb := 0
+	for pos := 0; pos < len(script) && pos < 30; pos++ {
+		for pref := 1; pref <= 8; pref++ {
+			for cnt := 2; cnt <= 3; cnt++ {
+				jobs = append(jobs, nodeJob(props, fmt.Sprintf("%d:+BATCH:%d:%d", pos, cnt, pref)))
+				nb++
+			}
+		}
+	}
+	c.Extra["engine_batched_input_executions"] = nb
 	c.Extra["engine_script_len"] = len(script)
 	c.Extra["engine_alphabet_full"] = len(nodeAlphabet("full"))
 	c.Extra["engine_single_deviations"] = len(singles)
